@@ -131,9 +131,13 @@ if __name__ == "__main__":
     r = run(prop, tier, 0)
     print(json.dumps(r.to_json()))
     seen = Counter()
-    for f in r.failures:
+    for f in r.failures:  # every failure on one line; the detail once per (contract, tags) signature
         sig = (f["contract"], tuple(f["tags"]))
         seen[sig] += 1
-        if seen[sig] <= 1:
-            print("FAILURE", f["contract"], f["tags"], json.dumps(f["case"]), "\n   ", f["detail"][:600])
+        print("FAILURE", f["contract"], json.dumps(f["tags"]), json.dumps(f["case"]))
+        if seen[sig] == 1:
+            print("    " + f["detail"][:600].replace("\n", "\n    "))
+    for n in r.notes:
+        if n.startswith("HARNESS ERROR"):
+            print(n)
     print("failures: %d in %d signatures; wall %.1fs" % (len(r.failures), len(seen), time.time() - t0))
